@@ -381,6 +381,34 @@ def generate_C08(rng, tier):
                 yield "bm_ops %s %s" % (",".join(["D0"] + tail + (["t0"] if tn == 0 else ["e0"])), hx)
             else:
                 yield "bm_ops %s %s" % (",".join(["D0", "e0", "t0"] + tail + _final()), hx)
+    # short ranges at every bit alignment (inside one byte, across byte boundaries) added to and
+    # removed from every container kind — the shapes a byte-filling fast path gets wrong
+    # (added by main after seeded change C08-6)
+    for kind in ("bits", "array", "empty", "bits_small"):
+        for base in ((20000, 3000) if quick else (20000, 3000, 63000, 8)):
+            ops = _fill(0, kind, rng)
+            span = 24 * 8 * 9 + 40
+            top = min(UMAX, base + span)
+            ops += ["R0.%d.%d" % (base, top)]
+            k = 0
+            for off in range(8):
+                for ln in (1, 2, 5, 6, 7, 8, 9, 15, 17):
+                    lo = base + 24 * k + off
+                    hi = min(UMAX, lo + ln)
+                    k += 1
+                    if lo < hi:
+                        ops.append("A0.%d.%d" % (lo, hi))
+            ops += ["e0"]
+            ops += ["A0.%d.%d" % (base, top)]
+            k = 0
+            for off in range(8):
+                for ln in (1, 2, 5, 6, 7, 8, 9, 15, 17):
+                    lo = base + 24 * k + off
+                    hi = min(UMAX, lo + ln)
+                    k += 1
+                    if lo < hi:
+                        ops.append("R0.%d.%d" % (lo, hi))
+            yield "bm_ops " + ",".join(ops + _final())
     # containers emptied completely (front to back, back to front, both ends), then
     # serialised and probed at the old boundaries
     def _probe(i, vals):
